@@ -570,7 +570,23 @@ def literal_step(value, chunks):
     return {"op": "literal", "in": [], "p": {"data": a.ravel().tolist(), "dtype": str(a.dtype), "shape": list(a.shape), "chunks": [list(map(int, c)) for c in chunks]}}
 
 
-LEAF_OPS = ["from_array"] * 8 + ["arange", "fill", "linspace", "eye"]
+def _g_fftfreq(g, ins):
+    n = g.rng.randint(1, g.max_extent * 2)
+    return {"n": n, "d": g.rng.choice([0.5, 1.0, 2.0]), "chunks": list(rand_composition(g.rng, n))}
+
+
+defop(
+    "fftfreq",
+    0,
+    _g_fftfreq,
+    lambda p: np.fft.fftfreq(p["n"], p["d"]),
+    lambda p: da().fft.fftfreq(p["n"], p["d"], chunks=(tuple(p["chunks"]),)),
+    "leaf creation",
+    w=0,
+    inexact=lambda p, ins, out: 1,
+)
+
+LEAF_OPS = ["from_array"] * 8 + ["arange", "fill", "linspace", "eye", "fftfreq"]
 
 # ---- elementwise -----------------------------------------------------------
 
